@@ -81,7 +81,7 @@ class Run(object):
             ops.append(("begin", a))
         if f["pending"]:
             for a in d.inflight[: f["pending"]]:
-                if a[2] is None:
+                if a[2] is None and tuple(a) not in self.interim_sent:  # (an action that is canceling does not turn pending)
                     ops.append(("pend", a))
         if f["interim"] and s == st.CANCELING:
             for a in d.inflight:
